@@ -16,6 +16,7 @@ Uquic/Proofs/FramesMore*.lean):
 import Uquic.Props.C09
 import Uquic.Proofs.FramesMoreCounts
 import Uquic.Proofs.FramesMoreTiles
+import Uquic.Proofs.FramesMoreStream
 
 namespace Uquic.Props.C09More
 open Uquic.Spec.Framing Uquic.Spec.FramingMon Uquic.Model.UQuic.Frames
@@ -282,5 +283,97 @@ example : TilesAt (lowestOffset (layoutOf [.crypto 5 0, .crypto 3 2])) (layoutOf
 /-- a layout with a negative offset: accepted by the monitor, outside `TilesAt`, inside `layoutTiles_carries` -/
 example : layoutTiles [.crypto (-2) 0] 3 = true ∧ layoutLowest [.crypto (-2) 0] = -2 ∧
     qfBuild [.crypto (-2) 0] [7, 8, 9] 12 = .ok [6, 10, 3, 7, 8, 9] := by decide
+
+/-! ## 3. the scrambler with Writes interleaved with pops -/
+
+section Interleaved
+open Uquic.Model.UQuic.Scrambler Uquic.Proofs.Stream Uquic.Proofs.StreamMore
+
+/-- while the ClientHello is incomplete `HasData` is false, so the packer does not pop (if it did, the
+    pop would release nothing and switch scrambling off: `pre_pop`) -/
+theorem waiting_hasData_false (W : List UInt8) : hasData (preState W) = false := by
+  simp [hasData, preState, invalid_eq]
+
+/-- **Scrambler, any interleaving.** `CH` is the ClientHello, `envCH` findSNIAndECH's answer on it
+    (inside the buffer: `EnvSane`). For EVERY history of Writes and PopCryptoFrame calls on a fresh client
+    Initial stream — the ClientHello arriving in any number of chunks, further handshake data written
+    before, between or after pops, Writes that re-run the analysis because the first cut has just been
+    used up, pops before the ClientHello is complete, any budgets — in which findSNIAndECH behaves as its
+    length check dictates (`EnvDiscipline`: ErrUnexpectedEOF unless the buffer is exactly `|CH|` bytes,
+    then `envCH`): no pop panics; every released frame carries the written bytes of its offset; and
+    whenever scrambling is over, everything below the write offset has been released — all of what was
+    written (hence the whole ClientHello, at its true offsets) once the buffer is drained. -/
+theorem scrambler_carries_interleaved (CH : List UInt8) (envCH : Sni) (hsane : EnvSane CH envCH)
+    (ops : List SOp) (hd : EnvDiscipline CH.length envCH 0 ops) :
+    ∃ s' frames, runOps (newInitial true) ops [] = some (s', frames) ∧
+      (∀ f ∈ frames, Truthful (written ops) f) ∧
+      (s'.scramble = false →
+        (∀ i, 0 ≤ i → i < s'.writeOffset → Covered frames i) ∧
+        (s'.buf = [] → ∀ i : Int, 0 ≤ i → i < (written ops).length → Covered frames i)) := by
+  have h0 : Phase CH.length envCH (newInitial true) [] [] := Phase.pre newInitial_eq rfl
+  obtain ⟨s', frames, hrun, hph⟩ := phase_run (saneN_of_envSane hsane) ops (newInitial true) [] [] h0 (by simpa using hd)
+  rw [List.nil_append] at hph
+  refine ⟨s', frames, hrun, ?_, ?_⟩
+  · cases hph with
+    | pre hs ha => subst ha; intro f hf; simp at hf
+    | scr hinv _ _ => exact hinv.truthful
+    | plain hr => exact hr.truthful
+  · intro hs
+    cases hph with
+    | pre hs' ha => rw [hs'] at hs; simp [preState] at hs
+    | scr hinv _ _ => have := hinv.scramble; rw [hs] at this; simp at this
+    | plain hr =>
+      refine ⟨hr.cover, ?_⟩
+      intro he i hi0 hi
+      have := hr.inv.drained he
+      exact hr.cover i hi0 (by omega)
+
+/-- … in the words of the property: if what was written is the ClientHello followed by further
+    handshake data, and the history ends with scrambling over and the buffer drained, every byte of the
+    ClientHello has been released in a frame that carries exactly the written bytes of its offset -/
+theorem scrambler_interleaved_clienthello (CH rest : List UInt8) (envCH : Sni) (hsane : EnvSane CH envCH)
+    (ops : List SOp) (hw : written ops = CH ++ rest) (hd : EnvDiscipline CH.length envCH 0 ops) :
+    ∃ s' frames, runOps (newInitial true) ops [] = some (s', frames) ∧
+      (∀ f ∈ frames, Truthful (CH ++ rest) f) ∧
+      (s'.scramble = false → s'.buf = [] → ∀ i : Int, 0 ≤ i → i < CH.length → Covered frames i) := by
+  obtain ⟨s', frames, h1, h2, h3⟩ := scrambler_carries_interleaved CH envCH hsane ops hd
+  rw [hw] at h2 h3
+  refine ⟨s', frames, h1, h2, ?_⟩
+  intro hs hb i hi0 hi
+  exact (h3 hs).2 hb i hi0 (by simp; omega)
+
+/-- non-vacuity: a 40-byte ClientHello (SNI cut [15,20), ECH cut [21,37)) written in two chunks, a pop, 5
+    more bytes of handshake data, pops (one with a small budget), an empty Write (ignored: `cuts[0]` is
+    set), pops that drain everything: [0,15) [20,21) [37,40) first, then the cuts [15,20) [21,37), then the
+    tail [40,45) -/
+def demoEnv : Sni := ⟨10, 10, 20, 0⟩
+def demoOps : List SOp :=
+  [.write (List.replicate 25 7) ⟨0, 0, 0, 1⟩, .write (List.replicate 15 7) demoEnv, .pop 12,
+   .write (List.replicate 5 9) ⟨0, 0, 0, 1⟩, .pop 100, .pop 100, .pop 8, .write [] ⟨0, 0, 0, 1⟩, .pop 100, .pop 100, .pop 100]
+
+example : EnvSane (List.replicate 40 7) demoEnv :=
+  ⟨rfl, Or.inr (by rw [List.length_replicate]; decide), Or.inr (by rw [List.length_replicate]; decide)⟩
+
+example : EnvDiscipline 40 demoEnv 0 demoOps := by
+  simp [EnvDiscipline, demoOps]
+
+example : (runOps (newInitial true) demoOps []).map
+    (fun r => (r.1.scramble, r.1.buf.length, r.2.map (fun f => (f.1, f.2.length)))) =
+    some (false, 0, [(0, 9), (9, 6), (20, 1), (37, 3), (15, 5), (21, 16), (40, 5)]) := by decide
+
+/-- a history in which the analysis is re-run with success: the ClientHello is complete, the first cut
+    has been used up, an empty Write makes `Write` choose both cuts again (the SNI part is re-sent) -/
+def demoOps2 : List SOp :=
+  [.write (List.replicate 40 7) demoEnv, .pop 100, .pop 100, .pop 100, .pop 100, .write [] demoEnv,
+   .pop 100, .pop 100, .pop 100]
+
+example : EnvDiscipline 40 demoEnv 0 demoOps2 := by
+  simp [EnvDiscipline, demoOps2]
+
+example : (runOps (newInitial true) demoOps2 []).map
+    (fun r => (r.1.scramble, r.1.buf.length, r.2.map (fun f => (f.1, f.2.length)))) =
+    some (false, 0, [(0, 15), (20, 1), (37, 3), (15, 5), (15, 5), (21, 16)]) := by decide
+
+end Interleaved
 
 end Uquic.Props.C09More
